@@ -72,6 +72,13 @@ def check_repeat(ctx):
         return
     rx, ry = res.items
     from .common import foreign_heads
+
+    def is_tile_of(v, base) -> bool:
+        """element i of `v` is base[i mod n], i < n * repeats: tile(base, repeats) written as a gather (`base[np.arange(n * repeats) % n]`)"""
+        return isinstance(v, Num) and v.length is not None and v.length == L * r.r and \
+            v.r == sym.subst(base.r, {sym.idx_atom(): sym.A('Mod', sym.idx(), L)})
+    if is_tile_of(ry, y):
+        ry = ty
     fh_y = foreign_heads(ry, ty) if not same(ry, ty) else []
     if fh_y:
         ctx.unknown('C12.1', 'y result is tile(y, repeats), untouched', f"construction not recognised (uses {fh_y}): {show(arr_term(ry), 200)}", fi.loc(), fi.qualname, 'y-tile')
@@ -110,6 +117,11 @@ def check_repeat(ctx):
                   f"code:     {sym.show(got)[:300]}\nexpected: {sym.show(want)[:300]}", fi.loc(), fi.qualname, 'closed-form-flat')
         return
     start_x = arr_term(strip_state(rx))
+    if isinstance(strip_state(rx), Num) and is_tile_of(strip_state(rx), x):
+        # the tiled copy written as a gather: the offset rules below are phrased for the tile term
+        ctx.unknown('C12.2', 'offset construction', 'the tiled x is built by an index gather (x[arange(n * repeats) % n]): the in-place offset rules are read from '
+                                                    'np.tile: construction not recognised', fi.loc(), fi.qualname, 'skeleton')
+        return
     if not veq(start_x, arr_term(tx)) and foreign_heads(start_x, tx):
         ctx.unknown('C12.1', 'x result starts as tile(x, repeats)', f"construction not recognised (uses {foreign_heads(start_x, tx)}): {show(start_x, 160)}",
                     fi.loc(), fi.qualname, 'x-tile')
